@@ -1967,6 +1967,51 @@ def _see_through_value_memos(mods: dict[str, Module], inv: dict, log: list[str])
             log.append(f"{mod.relpath} {q}: value memo `{cname}[{ktext}]` read as `{ast.unparse(E)[:60]}` ({n_reads} read(s))")
 
 
+def _apply_trampolines(mods: dict[str, Module], inv: dict, log: list[str]) -> None:
+    """A new helper whose whole body is `return f(*args)` - f one of its positional parameters, args its var-positional parameter (a "run this stage and
+    log if it fails" wrapper once its re-raising try has been read as its body) - is the call it forwards: `self._run("fit", self.fit, x, y)` is `self.fit(x, y)`."""
+    n = 0
+    for mod in mods.values():
+        old = inv["modules"].get(mod.name)
+        tramps: dict[str, tuple[int, bool]] = {}        # helper name -> (index of the callable among the explicit parameters, is method)
+        for q, cls, fn in _functions_of(mod):
+            known = (old["classes"].get(cls.name, {}).get("methods", {}) if cls is not None and old is not None else (old["functions"] if old is not None else {}))
+            if fn.name in known or fn.args.vararg is None or fn.args.kwonlyargs or fn.decorator_list and [ast.unparse(d) for d in fn.decorator_list] != ["staticmethod"]:
+                continue
+            body = [b for b in fn.body if not (isinstance(b, ast.Expr) and isinstance(b.value, ast.Constant))]
+            if len(body) != 1 or not isinstance(body[0], ast.Return) or not isinstance(body[0].value, ast.Call):
+                continue
+            c = body[0].value
+            pos = [a.arg for a in [*fn.args.posonlyargs, *fn.args.args]]
+            is_method = cls is not None and not fn.decorator_list
+            explicit = pos[1:] if is_method else pos
+            if isinstance(c.func, ast.Name) and c.func.id in explicit and len(c.args) == 1 and isinstance(c.args[0], ast.Starred) and isinstance(c.args[0].value, ast.Name) \
+                    and c.args[0].value.id == fn.args.vararg.arg and (not c.keywords or (len(c.keywords) == 1 and c.keywords[0].arg is None and fn.args.kwarg is not None
+                                                                                         and ast.unparse(c.keywords[0].value) == fn.args.kwarg.arg)):
+                tramps[fn.name] = (explicit.index(c.func.id), is_method, len(explicit))
+        if not tramps:
+            continue
+
+        class T(ast.NodeTransformer):
+            def visit_Call(self, node: ast.Call):  # noqa: N802
+                nonlocal n
+                self.generic_visit(node)
+                nm = node.func.attr if isinstance(node.func, ast.Attribute) and isinstance(node.func.value, ast.Name) and node.func.value.id in ("self", "cls") else \
+                    node.func.id if isinstance(node.func, ast.Name) else None
+                if nm in tramps and not any(isinstance(a, ast.Starred) for a in node.args) and all(k.arg for k in node.keywords):
+                    k_, _is_m, n_explicit = tramps[nm]
+                    if len(node.args) >= n_explicit and _simple(node.args[k_]):
+                        n += 1
+                        return ast.copy_location(ast.Call(func=node.args[k_], args=list(node.args[n_explicit:]), keywords=list(node.keywords)), node)
+                return node
+        for q, _, fn in _functions_of(mod):
+            if fn.name not in tramps:
+                T().visit(fn)
+                ast.fix_missing_locations(fn)
+    if n:
+        log.append(f"{n} call(s) through a forwarding wrapper (`return f(*args)`) read as the forwarded call")
+
+
 def _select_from_displays(mods: dict[str, Module], log: list[str]) -> None:
     """`(a, b)[0]` with a literal index is `a` when the elements that are dropped are pure (typically a tuple-returning helper read in place)."""
     n = 0
@@ -2669,6 +2714,7 @@ def canonicalise(mods: dict[str, Module]) -> dict:
     _map_to_comprehension(mods, cm_log)
     _flatten_reraising_try(mods, cm_log)
     _see_through_value_memos(mods, inv, cm_log)
+    _apply_trampolines(mods, inv, cm_log)
     _inline_local_closures(mods, cm_log)
     _inline_procedure_closures(mods, cm_log)
     _inline_new_properties(mods, inv, cm_log)
